@@ -171,6 +171,7 @@ def split_trace(lines, out):
 
 def oracle_download(c, f, steps, out, good, lines=None):
     """what a master reassembles from the plugin's ASDUs; returns list of (clause, text)"""
+    bad = []
     # the master starts a fresh buffer for section n when it calls section n itself: mark those points in the trace
     marks = {}
     if lines is not None:
@@ -182,8 +183,16 @@ def oracle_download(c, f, steps, out, good, lines=None):
                 d0 = c.parse(bytes.fromhex(w[1]))
                 if d0 and d0["tid"] == 122 and d0["cot"] == 13 and not d0["pn"] and len(d0.get("body", b"")) >= 4 and d0["body"][3] == 6 and grp[-1].startswith("st TRANSMIT"):
                     marks[pos] = d0["body"][2]
+                # the outcome told to the provider must be the one the master acknowledged
+                if d0 and d0["tid"] == 124 and len(d0.get("body", b"")) >= 4:
+                    afq = d0["body"][3]
+                    for g in grp:
+                        if g.startswith("cb complete"):
+                            told = int(g.split()[2])
+                            want = 1 if afq == 1 else 0 if (afq & 15) == 2 else None
+                            if want is None or told != want:
+                                bad.append(("outcome-mismatch", "master acknowledged the file with AFQ %d, provider was told transferComplete(%d)" % (afq, told)))
             pos += len(grp)
-    bad = []
     cur = {}                  # section number -> bytearray since the last section-ready for it
     done_secs = {}            # section number -> data at the time of its last-segment message
     completes = []
